@@ -1826,10 +1826,10 @@ func (p *Parser) expectErr(kind TokenKind) *ParseError {
 		p.advance()
 		return nil
 	}
-	// Handle >> splitting: when expecting >, accept >> and split it
-	if kind == TokenGreater && p.check(TokenGreaterGreater) {
-		p.splitGreaterGreater()
-		return nil
+	// A > is only ever expected as the close of a template list: accept >>, >= and >>=
+	// there too and split them (vec3<f32>=..., array<vec2<u32>>=...).
+	if kind == TokenGreater {
+		return p.expectTemplateClose()
 	}
 	return &ParseError{
 		Message: fmt.Sprintf("expected %s, got %s", kind, p.peek().Kind),
